@@ -2,6 +2,9 @@
    C01a  index sets of the loops of the pipeline model (core Lean only)
    C01b  Cartesian enumeration and ordering, binomial shift = (X − A)^a, the GAMMA table against Γ((i+1)/2),
          the Gaussian moment integral behind the both-on-centre closed form (Mathlib)
+   C01c  the parity shortcuts are lossless: the type-2 table vanishes unless a + b = k + l + m (mod 2) (from the write
+         pattern of the type-1 table), hence the stride-2 loop over lam2 equals the full double sum
    The contraction algebra shared with C07/C09 is in Props/C07.lean and Props/C09.lean. -/
 import Ecpint.Props.C01a
 import Ecpint.Props.C01b
+import Ecpint.Props.C01c
